@@ -480,8 +480,17 @@ package testscript
 //@   requires ts != nil && cmd != nil
 //@   modifies gReaped, gWaitedCmd, gRecv
 //@   at call close#1: requires gWaitedCmd[cmd] && arg0 == wait
+//@ ghost var gIsBg Bool
+//@ ghost var gBgErr Int
+//@ ghost var gFgErr Int
 //@ func (*TestScript).cmdExec
 //@   requires ts != nil && ts.envMap != nil
+//@   at call (*regexp.Regexp).MatchString#2: bind gIsBg = r
+//@   at call (*testscript.TestScript).execBackground#1: bind gBgErr = result1
+//@   at call (*testscript.TestScript).exec#1: bind gFgErr = err
+//@   ensures !neg && gIsBg ==> gBgErr == nil
+//@   ensures !neg && !gIsBg ==> gFgErr == nil
+//@   ensures neg && !gIsBg ==> gFgErr != nil
 //@   requires forall K {at(ts.background,K)} :: lo(ts.background) <= K && K < hi(ts.background) ==> at(ts.background,K).cmd != nil
 //@   modifies F_*, H_*, M*, gStarted, gReaped, gWaitedCmd, gRecv
 //@   at call (*testscript.TestScript).Fatalf#0: requires gStarted - gReaped - len(ts.background) == old(gStarted) - old(gReaped) - old(len(ts.background))
@@ -654,6 +663,7 @@ package testscript
 //@ func RunT
 //@   partial
 //@   at call (github.com/rogpeppe/go-internal/testscript.T).Run#1: requires !seenRunNames[sid(name)]
+//@   at call (github.com/rogpeppe/go-internal/testscript.T).Run#1: requires capturedVar(f, "name") == name
 //@   at call (github.com/rogpeppe/go-internal/testscript.T).Run#1: ghost_after seenRunNames[sid(name)] = true
 //@   at call context.Background#1: ghost seenRunNames = emptySet()
 //@   loop 2: invariant names != nil && forall k int {seenRunNames[k]} :: seenRunNames[k] ==> mapkeys(names)[k] && mapvals(names)[k]
